@@ -297,7 +297,7 @@ def make_spec_step(nops):
 # ---------------------------------------------------------------------------------------------------------------------
 # path grammar: dotted attributes and ["key"] / ['key'] lookups, mixed, keys that contain dots
 
-SEGS = [("attr", ".a", "a"), ("dq", '["k"]', "k"), ("sq", "['k']", "k"), ("dq-dot", '["x.y"]', "x.y"), ("sq-dot", "['x.y']", "x.y"), ("attr2", ".b_2", "b_2")]
+SEGS = [("attr", ".a", "a"), ("dq", '["k"]', "k"), ("sq", "['k']", "k"), ("dq-dot", '["x.y"]', "x.y"), ("sq-dot", "['x.y']", "x.y"), ("attr2", ".b_2", "b_2"), ("sq-esc", "['it\\'s']", "it's")]  # last: a key written with a backslash escape (seeded change C18-E)
 
 
 def make_paths():
@@ -384,7 +384,7 @@ def obligations(tier):
             continue
         obs.append(Ob(f"C18.plain.{'deprecated' if dep else 'alias'}.shape{fsh}.{'passthrough' if fp else 'local'}.h{nops}", make_plain_step(nops, dep, fsh, fp), warm[:: (3 if not dep else 7)], f"plain class; {'DeprecatedAlias' if dep else 'Alias'}; path shape {SHAPES[fsh]!r}, passthrough={fp}; transform, fallback symbolic; initial target present/missing symbolic; history of {nops} operations from {{read, write v, delete, write target, delete target, deepcopy+read, read twice}} with symbolic selectors and values (ints, or None by a symbolic flag)", expect={"ok"}, timeout=T))
     warm_s = [(p, t, f, tg, 5, a, 7, b, 9) for p in (False, True) for t in (False, True) for f in (False, True) for tg in (False, True) for a in range(7) for b in (0, 3)]
-    obs.append(Ob("C18.paths", make_paths(), [(n, a, b, c, p_, 5, 6) for n in (1, 2, 3) for a in range(6) for b in (0, 1, 3) for c in (0, 2, 4) for p_ in (False, True)], f"path grammar: root attribute followed by 1..3 segments from {[sg[1] for sg in SEGS]} (symbolic selectors): construction, read, local / passthrough write, delete; symbolic values", expect={"ok"}, timeout=T))
+    obs.append(Ob("C18.paths", make_paths(), [(n, a, b, c, p_, 5, 6) for n in (1, 2, 3) for a in range(len(SEGS)) for b in (0, 1, 3, 6) for c in (0, 2, 4, 6) for p_ in (False, True)], f"path grammar: root attribute followed by 1..3 segments from {[sg[1] for sg in SEGS]} (symbolic selectors): construction, read, local / passthrough write, delete; symbolic values", expect={"ok"}, timeout=T))
     obs.append(Ob("C18.paths.malformed", make_bad_paths(), [(i,) for i in range(11)], "11 malformed path strings must be refused with ValueError", expect={"rejected"}, timeout=T))
     obs.append(Ob(f"C18.spec.h2", make_spec_step(2), warm_s, "spec class with al: int = Alias('t', ...) (managed, type-checked); passthrough, transform, fallback symbolic; history of 2 operations from {read, write, delete, with_al, with_t, deepcopy, ill-typed write}", expect={"ok"}, timeout=T))
     return obs
